@@ -61,7 +61,7 @@ package certgen
 
 // ---- C10: only strong public keys are certified ---------------------------------------------------------
 //@ func ValidatePublicKeyStrength
-//@   requires parsedKeyShape(pub)
+//@   requires parsedKeyShape(pub)        #C10.parsed-shape @C10
 //@   ensures ret1 == nil                    #C10.no-error @C10
 //@   ensures ret0 ==> strongKey(pub)        #C10.strong @C10
 //@   ensures strongKey(pub) ==> ret0        #C10.served @C10
